@@ -120,6 +120,7 @@ type Ctx struct {
 	Only    int // -1, or the single case to run (replay)
 	Verbose bool
 	Race    bool
+	Phase   string // name of the plan phase this child belongs to (salts the PRNG unless it is the first, unnamed-salt phase)
 	OutPath string
 	LogPath string
 
@@ -148,6 +149,11 @@ func (c *Ctx) propNum() uint64 { return Hash64(c.Prop) }
 
 // CaseRand is the generator for case i of this batch.
 func (c *Ctx) CaseRand(i int) *Rand {
+	if c.Phase != "" {
+		// every phase of a check draws its own cases (a race phase would
+		// otherwise repeat the first batches of the plain phase)
+		return NewRand(c.Seed, c.propNum(), uint64(c.Batch), uint64(i), Hash64(c.Phase))
+	}
 	return NewRand(c.Seed, c.propNum(), uint64(c.Batch), uint64(i))
 }
 
